@@ -381,8 +381,24 @@ def _check_update_predict(res, tag, spec, y_full, a, hist, top):
     y_new = y_full.iloc[sim.pos:sim.pos + n_new]
     cv = SlidingWindowSplitter(fh=fh, window_length=W, step_length=s, start_with_window=sww)
     cut0 = f.cutoff
+    before = call(lambda: twin.predict(fh))
     r = call(lambda: f.update_predict(y_new.copy(), cv, update_params=up))
     H = dict(history=hist, op=top)
+    if r.ok and not up and before.ok and f.cutoff == cut0:
+        # parameters of the last fit, cutoff where it was: the forecaster must forecast as before
+        after = call(lambda: f.predict(fh))
+        if not after.ok:
+            res.violate("%s:update_predict:then-predict" % tag, "predict raises after "
+                        "update_predict(update_params=False)", observed=dict(error=after.brief(), **H))
+            return
+        bi, ai = [int(i) for i in before.value.index], [int(i) for i in after.value.index]
+        if bi != ai or not close(before.value.values, after.value.values, rtol=1e-9):
+            res.violate("%s:update_predict:then-predict:%s" % (tag, "index" if bi != ai else "values"),
+                        "after update_predict(update_params=False) left the cutoff where it was, predict no longer "
+                        "returns the forecasts made from that cutoff with the unchanged parameters",
+                        expected=dict(index=bi, values=[float(v) for v in before.value.values]),
+                        observed=dict(index=ai, values=[float(v) for v in after.value.values], **H))
+            return
     # reference: loop of single updates and predicts
     def loop():
         exp = []
